@@ -342,6 +342,9 @@ class Interp:
         self.depth += 1
         if self.depth > self.max_depth:
             raise Unsupported("call depth")
+        nograd = any("no_grad" in ast.unparse(d) or "inference_mode" in ast.unparse(d) for d in fref.node.decorator_list)
+        if nograd:
+            cur().no_grad_depth += 1
         try:
             try:
                 self.exec_block(fref.node.body, env, fr)
@@ -349,6 +352,8 @@ class Interp:
                 return r.value
             return None
         finally:
+            if nograd:
+                cur().no_grad_depth -= 1
             self.depth -= 1
             self.frames.pop()
 
@@ -566,11 +571,19 @@ class Interp:
             ctx.assume(c if not isinstance(c, bool) else c)
 
     def st_With(self, st, env, fr):
+        mgrs = []
         for item in st.items:
             v = self.eval(item.context_expr, env, fr)
+            if isinstance(v, NoGrad):
+                v.__enter__()
+                mgrs.append(v)
             if item.optional_vars is not None:
                 self.assign(item.optional_vars, v, env, fr)
-        self.exec_block(st.body, env, fr)
+        try:
+            self.exec_block(st.body, env, fr)
+        finally:
+            for m in mgrs:
+                m.__exit__(None, None, None)
 
     def st_Try(self, st, env, fr):
         # modelled: body only (no exception other than asserts / WF failures is modelled, A12)
@@ -888,6 +901,8 @@ class Interp:
             return getattr(obj, name)
         if isinstance(obj, str) and obj == "dev":
             return obj
+        if not isinstance(obj, (SymTensor, SymTD)) and hasattr(obj, name) and type(obj).__module__.startswith("tvc"):
+            return getattr(obj, name)
         raise Unsupported(f"attribute {name} on {type(obj).__name__}")
 
     def torch_attr(self, mod, name):
@@ -1156,6 +1171,14 @@ class Interp:
 
                 return einops_rules.apply(f.name.split(".", 1)[1], args, kwargs)
             raise Unsupported(f"call to unmodelled {f.name}")
+        if isinstance(f, SelfObj):
+            r = f._cls.find_method("__call__")
+            if r:
+                return self.call(FuncRef(r[0].mod, r[1], r[0]), args, kwargs, f)
+            r = f._cls.find_method("forward")
+            if r:
+                return self.call(FuncRef(r[0].mod, r[1], r[0]), args, kwargs, f)
+            raise Unsupported(f"object of {f._cls.name} is not callable")
         if isinstance(f, TypeTok):
             return self.construct(f, args, kwargs)
         if isinstance(f, ClassRef):
